@@ -199,6 +199,11 @@ func structureOfLine(l string) []string {
 				return []string{"crdt"}
 			}
 		}
+	case "pininfo":
+		if len(f) > 1 && (f[1] == "get" || f[1] == "getall" || f[1] == "filter") {
+			return []string{"optracker"}
+		}
+		return []string{"stateless", "optracker"}
 	case "soak":
 		if len(f) > 1 && known(f[1]) {
 			return []string{f[1]}
@@ -802,6 +807,26 @@ func validStatus(st api.TrackerStatus) bool {
 
 const nCids = 24
 
+func errorStatus(st api.TrackerStatus) bool {
+	switch st {
+	case api.TrackerStatusPinError, api.TrackerStatusUnpinError, api.TrackerStatusClusterError,
+		api.TrackerStatusError, api.TrackerStatusUnexpectedlyUnpinned:
+		return true
+	}
+	return false
+}
+
+// pinInfoLine prints the (status, has-error-text) pair of one returned PinInfo as its own case
+// line: status and error text are written together (Operation.SetError) and must be read as a pair.
+func pinInfoLine(s *soak, what string, pi *api.PinInfo) {
+	e := 0
+	if pi.Error != "" {
+		e = 1
+	}
+	s.sample("pininfo-"+what, fmt.Sprintf("C18 pininfo %s => status=%s error=%d", what, pi.Status.String(), e),
+		e == 1 && !errorStatus(pi.Status))
+}
+
 func checkPinInfos(s *soak, what string, l []*api.PinInfo, cids []cid.Cid) {
 	var ids []int
 	for _, pi := range l {
@@ -824,6 +849,7 @@ func checkPinInfos(s *soak, what string, l []*api.PinInfo, cids []cid.Cid) {
 		if !validStatus(pi.Status) {
 			s.tornf("%s returned an entry with status %d", what, pi.Status)
 		}
+		pinInfoLine(s, what, pi)
 		ids = append(ids, idx+1)
 	}
 	e, d := listProblems(ids)
@@ -881,6 +907,8 @@ func soakOptracker(secs int) {
 			pi := opt.Get(ctx, c)
 			if pi == nil || !pi.Cid.Equals(c) || !validStatus(pi.Status) {
 				s.tornf("Get returned nil, a foreign cid or an undefined status")
+			} else {
+				pinInfoLine(s, "get", pi)
 			}
 		case 1:
 			if pi, ok := opt.GetExists(ctx, c); ok && (pi == nil || !pi.Cid.Equals(c) || !validStatus(pi.Status)) {
@@ -1056,6 +1084,8 @@ func soakStateless(secs int) {
 			s.tornf("Status returned nil or a foreign cid")
 		} else if !validStatus(pi.Status) {
 			s.tornf("Status returned status %d", pi.Status)
+		} else {
+			pinInfoLine(s, "status", pi)
 		}
 		spt.OpContext(ctx, c)
 	})
